@@ -146,6 +146,12 @@ func init() {
 		"return newCompassHandoverAttester(&k, logger, params).Execute(sdkCtx)\n\t}", "return newCompassHandoverAttester(&k, logger, params).Execute(sdkCtx)\n\tdefault:\n\t\treturn newSubmitLogicCallAttester(&k, logger, params).Execute(sdkCtx)\n\t}",
 		"submitLogicCallAttester).Execute|assert"})
 
+	addMutant(Mutant{"C09-negative-fee-accepted", "C09", "x/treasury/keeper/msg_server.go",
+		"v.Multiplicator.IsNil() || v.Multiplicator.IsNegative() || v.Multiplicator.GT(", "v.Multiplicator.IsNil() || v.Multiplicator.GT(",
+		"IsNegative is refused"})
+	addMutant(Mutant{"C09-fee-bound-not-checked", "C09", "x/treasury/keeper/msg_server.go",
+		"v.Multiplicator.IsNegative() || v.Multiplicator.GT(maxRelayerFeeMultiplicator)", "v.Multiplicator.IsNegative()",
+		"GT is refused"})
 	// ---- C10
 	addMutant(Mutant{"C10-unbonded-admitted", "C10", "x/valset/keeper/keeper.go",
 		"if val.IsBonded() && !val.IsJailed() && k.ValidatorSupportsAllChains(ctx, bz) {", "if !val.IsJailed() && k.ValidatorSupportsAllChains(ctx, bz) {",
